@@ -210,7 +210,7 @@ PROPS["C05"] = dict(
     outside=["arbitrary contents beyond 16 (24) bytes; extension chains longer than the bytes available within that bound", "storage buffers larger than 6 bytes", "memories with more than 2 slots"],
 )
 
-C17_SIMPLE_Q = ["provision_s1_occ_free2", "provision_s2_occ2_free2", "take_s3", "new_frag_s3", "provision_s1_empty", "provision_s1_some", "provision_s1_full", "provision_s1_small", "provision_s1_small_full", "provision_s2_full",
+C17_SIMPLE_Q = ["new_frag_s1_occ_full", "provision_s1_occ_free2", "provision_s2_occ2_free2", "take_s3", "new_frag_s3", "provision_s1_empty", "provision_s1_some", "provision_s1_full", "provision_s1_small", "provision_s1_small_full", "provision_s2_full",
                 "new_pdu_s1_empty", "new_pdu_s1_some", "new_pdu_s2", "take_s1_empty", "take_s1_occ", "take_s2_one", "take_s2_both",
                 "new_frag_s1_empty_nobuf", "new_frag_s1_empty", "new_frag_s1_occ", "new_frag_s2", "save_s1_empty", "save_s1_occ", "save_s2"]
 C17_SIMPLE_T = ["save_s3", "provision_s3"]
@@ -562,3 +562,17 @@ PROPS["C13"]["harnesses"] += [H("c13::rx_first_bc_o2_lean", bounds="first fragme
                                 unwind=6, unwindset={"iterate_over_extension_header": 3, "header_extension9Extension": 3, "memcmp": 8}, stubs=["read_gse_header -> first/broadcast spec stub (C14 lemma)"], cost=300, timeout=1500, mem_gb=16)]
 
 PROPS["C13"]["harnesses"] += [H("c13::bundled_managers", bounds="all 65536 ids, both bundled managers", cost=1)]
+
+
+# MIR -> SMT member (vp/mirsmt.py): the slot-index arithmetic for every slot count up to 65536 --
+# memories with >= 256 slots are beyond what Kani can hold (a 256-element array of contexts runs
+# CBMC out of 24 GB for a single call)
+SLOTIDX = H("smt::slot_index", required=False, kind="smt", smt="slotidx", replay_module="c17",
+            bounds="slot count 1..=65536 (usize, 64-bit wrapping arithmetic), every u8 fragment id; the loop-free prefix of "
+                   "SimpleGseMemory::{new, new_frag, take_frag, save_frag} up to the slot access, encoded from the nightly MIR dump of /repo; "
+                   "z3 4.8.12 and cvc5 1.0 must both answer unsat",
+            stubs=["vec::from_elem(x, n).into_boxed_slice() has length n (std model of the MIR->SMT member)",
+                   "integer fields of SimpleGseMemory keep the value `new` stored (checked syntactically on the MIR: no later store)"],
+            cost=20, timeout=600, mem_gb=16)
+PROPS["C17"]["harnesses"] += [SLOTIDX]
+PROPS["C05"]["harnesses"] += [SLOTIDX]
